@@ -5,8 +5,8 @@ from harness import runner, tlc, isagen
 
 INV = ['SelectedIsLeastAccepting', 'RegisterNeverNumeric', 'NoAcceptingMeansRejected', 'Emit']
 TXT = {'r': 'r1', 'r2': 'r2', '[r]': '[r1]', '[r+n]': '[r1+5]', '[n]': '[5]', '[[n]]': '[[5]]', 'r+n': 'r1+5', 'key': 'kx',
-       'num': '5', 'lab': 'lab', '{n}': '{5}'}
-VAL = {'num': 5, 'lab': 9, 'key': 7, '{n}': 5}
+       'num': '5', 'lab': 'lab', '{n}': '{5}', 'hexa': '$a', 'chra': "'a'"}
+VAL = {'num': 5, 'lab': 9, 'key': 7, '{n}': 5, 'hexa': 10, 'chra': 97}
 
 
 def oname(aid):
@@ -65,7 +65,7 @@ def build(e, stmts=None):
         ins['variants'] = variants[1:]
     if not opsets:
         opsets = {'dummy': {'operand_values': {'d': {'type': 'numeric', 'argument': {'size': 8, 'byte_align': True}}}}}
-    cfg = {'description': 'generated', 'general': isagen.base_general('big', registers=['r1', 'r2']), 'operand_sets': opsets,
+    cfg = {'description': 'generated', 'general': isagen.base_general('big', registers=['r1', 'r2', 'a']), 'operand_sets': opsets,
            'instructions': {'ins': ins}}
     stmts = stmts if stmts is not None else [e['t']]
     src = 'kx = 7\nlab = 9\n' + ''.join('InS ' + ', '.join(TXT[t] for t in ts) + '\n' for ts in stmts)
